@@ -140,8 +140,14 @@ class ExactAlgorithmCplex(ExactAlgorithmBase, PairwiseBasedAlgorithm):
                     new_dataset: Dataset = dataset.sub_problem_from_ids(scc_i_set, keep_empty_rankings=True)
                     rankings: List[Ranking] = self._compute_consensus_rankings_with_optim(new_dataset, scoring_scheme,
                                                                                           False, True)
+                    # the elements of the sub-problem may have another type than in the dataset (names that are all
+                    # integer-like become int in the sub-problem): the dataset's own elements are written back
+                    elements_by_name = {str(id_elements[id_elem]): id_elements[id_elem] for id_elem in scc_i_set}
+                    # a name such as "007" is read back as 7 from a sub-problem of int elements
+                    elements_by_name.update({str(int(name)): elem for name, elem in list(elements_by_name.items())
+                                             if name.isdecimal() and str(int(name)) not in elements_by_name})
                     for bucket in rankings[0]:
-                        ranking.append(bucket)
+                        ranking.append({elements_by_name[str(element)] for element in bucket})
             return [Ranking(ranking)]
 
         # else, no more recursive calls to do, single problem to solve
